@@ -2,7 +2,7 @@
 # ingest_neutral.sh <property id> <a|b|c|d> <name>: copy a behaviour-preserving variant from
 # /tmp/neut/<id>/_out/<x>/ into /verif/neutral/<name>/ and evaluate it against every check.
 set -eu
-ID="$1"; V="$2"; NAME="$3"; SRC="/tmp/neut/$ID/_out/$V"; DST="/verif/neutral/$NAME"
+ID="$1"; V="$2"; NAME="$3"; SRC="${NEUT_BASE:-/tmp/neut}/$ID/_out/$V"; DST="/verif/neutral/$NAME"
 mkdir -p "$DST"
 cp "$SRC/patch.diff" "$DST/patch.diff"
 [ -f "$SRC/NOTES.md" ] && cp "$SRC/NOTES.md" "$DST/NOTES.md"
